@@ -9,6 +9,8 @@ HARNESSES = {
 
 _BLOCK_MODULES = ["Astria.Block.Model", "Astria.Block.Rfc", "Astria.Block.Chain", "Astria.Block.Group",
                   "Astria.Block.Build", "Astria.Block.Tamper", "Astria.Block.Receive"]
+_WIRE_MODULES = ["Astria.Block.Model", "Astria.Block.Rfc", "Astria.Block.Chain", "Astria.Block.Group", "Astria.Block.Build",
+                 "Astria.Block.Tamper", "Astria.Block.Wire", "Astria.Block.Reencode"]
 
 PROPS = {
     "C07": {
@@ -63,6 +65,45 @@ PROPS = {
                        "completeness of RFC 6962 audit paths; tamper evidence by a hash-chain membership argument that covers both verifiers; receiver "
                        "attribution by induction over the conductor's matching loop; counterexample for the unchanged reconstruct.rs",
     },
+    "C17": {
+        "level": "other",
+        "lean_modules": _WIRE_MODULES + ["Astria.Properties.C17"],
+        "theorems": ["Astria.C17_decode_total", "Astria.C17_accepted_consistent", "Astria.C17_accepted_consistent_full_partial",
+                     "Astria.C17_full_block_rollup_proofs_counterexample", "Astria.C17_reencode",
+                     "Astria.C17_transaction_consistent"],
+        "harnesses": ["block"],
+        "monitors": ["wire_no_panic", "wire_reencode", "wire_accepted_consistent", "no_panic", "reencode",
+                     "accepted_proofs_verify", "dump_parse"],
+        "scope_regex": r"^block (wire|full|filtered|meta|blob) ",
+        "nontrivial_regex": r"^block (wire \S+ \S+ \S+ => raw=|(full|filtered|meta|blob) )",
+        "thorough_seeds": 1,
+        "search_seeds": 2,
+        "rule": "in-crate harness (child module celestia::verif of astria-conductor; all of astria-core reachable). From the valid encodings of every "
+                "generated session (full block, a filtered block, Celestia metadata, rollup blobs, the RollupData entries, a signed transaction, the "
+                "brotli-compressed SubmittedMetadataList / SubmittedRollupDataList blobs) the harness derives (a) structure-aware mutations at the raw-struct "
+                "level (every Option field unset, ids / hashes / roots shortened or extended, 10 edits of each proof's index / size / path, entries removed / "
+                "duplicated / reordered, header limits), re-encoded with prost, and (b) byte-level mutations (truncation at spread positions, bit flips, byte "
+                "deletion / insertion / 0x00-0x7f-0x80-0xff overwrite, the message twice, an unknown field, a 2^64-1 length, an 11-byte varint), also inside the "
+                "brotli payload, and feeds the bytes through prost and the public entry points Transaction / SequencerBlock / FilteredSequencerBlock / "
+                "SubmittedMetadata / SubmittedRollupData / RollupData ::try_from_raw and the conductor's decode_raw_blobs (brotli + list conversion) under "
+                "catch_unwind. For every message that prost decodes, the raw struct is dumped and the Lean glue model must predict the verdict and error "
+                "kind (signature / key / body validity are oracles computed independently with ed25519); accepted values are re-encoded, decoded and "
+                "validated again on the Rust side, and the Lean side re-checks every proof of the accepted value. non-trivial = a line whose bytes reached "
+                "the validation glue; distinct = distinct trace lines",
+        "trusted_base": [KERNEL,
+                         "hand-written glue model (Astria/Block/Model.lean: decodeProof, decodeHeader, decodeRt, *FromRaw, txFromRaw) tied to the code by the "
+                         "correspondence run; the byte layer (prost, brotli, serde, bech32, ed25519 decoding) is only explored, not modelled",
+                         "harness /verif/harness/conductor/blobs.rs + Lean driver; Rust's catch_unwind as panic detector"],
+        "assumptions": ["level is partial: proof for the validation glue (Raw -> Except Err Checked), exploration (mutation-based) for the byte-level decoders; "
+                        "a panic inside prost / brotli / bech32 on an input the run did not generate is not excluded by any theorem",
+                        "64-bit target (u64 <-> usize conversions cannot fail)",
+                        "TransactionBody::try_from_any (actions, group rules), Deposit / PriceFeedData / extended-commit-info conversion and ed25519 are oracles of the model",
+                        "CheckedTransaction::new's size / nonce / chain-id gates live in astria-sequencer and are not reachable from this crate (covered by the mempool / abci areas)"],
+        "explanation": "theorems: every receiver is total for astria-merkle's (panicking) index walk because every proof that reaches verification went through "
+                       "try_into_proof (composition of C08's totality through the glue); accepted values satisfy the type's Merkle checks (full block: except the "
+                       "per-rollup proofs — counterexample, finding FB1); accepted values re-encode to a message that is accepted again with the same value "
+                       "(duplicate rollup entries collapse as in IndexMap); transaction signature is over exactly the carried body bytes",
+    },
 }
 
 TEXT = {
@@ -79,10 +120,26 @@ TEXT = {
                 "on every single-element tampering and diffs roots, proofs, verdicts and error kinds with the model (Lean SHA-256).",
         "design_ref": "DESIGN.md §6 C07",
         "note": "Trusted: Lean kernel, hand-written model, harness/driver, sha2/prost/brotli/tendermint. Open findings reported as KNOWN-FINDING: F10 (conductor "
-                "attaches another rollup's blob) and F12 (SequencerBlock::try_from_raw never verifies the per-rollup proofs it returns). Tamper evidence is "
+                "attaches another rollup's blob) and FB1 (SequencerBlock::try_from_raw never verifies the per-rollup proofs it returns). Tamper evidence is "
                 "relative to data_hash; completeness is proved for RFC 6962 verification and checked by evaluation for the crate's index walk.",
         "technique": "Lean 4 proof (induction over folds / audit paths / the matching loop; collision extractors) + differential correspondence and "
                      "spec monitors on the real astria-core and astria-conductor code",
+    },
+    "C17": {
+        "text": "PARTIAL by design: proof for the validation glue, exploration for the byte layer. Lean 4 model of the glue between prost-decoded raw structs "
+                "and the checked types (Proof, RollupTransactions, SequencerBlock, FilteredSequencerBlock, SubmittedMetadata, SubmittedRollupData, "
+                "Transaction) as total functions Raw -> Outcome (Except Err Checked) whose only partial operation — astria-merkle's index walk — carries an "
+                "explicit panic outcome. Theorems for every raw value and every hash function: no receiver reaches a panic (decode_total); an accepted "
+                "value has passed the type's Merkle checks (accepted_consistent; for the full block the per-rollup proofs are NOT checked by the code: "
+                "counterexample theorem + finding FB1); an accepted value re-encodes to a message that is accepted again and yields the same value "
+                "(reencode); an accepted transaction's signature verifies over exactly the body bytes it carries. What Lean cannot carry — panics inside "
+                "prost, brotli, bech32, ed25519 point decoding — is explored on every run: structure-aware and byte-level mutations of valid encodings through "
+                "every public decode entry point incl. the conductor's blob decoding under catch_unwind; monitor: never panic, accepted => re-encodes "
+                "equivalently and its checks hold; the glue model must predict verdict and error kind of every message prost lets through.",
+        "design_ref": "DESIGN.md §6 C17",
+        "note": "Level `other` = proof (glue) + exploration (bytes). Trusted: Lean kernel, hand-written glue model, harness/driver, catch_unwind. Open finding "
+                "FB1 (per-rollup proofs of an accepted SequencerBlock are unverified) is reported as KNOWN-FINDING. CheckedTransaction::new (sequencer) is out of reach here.",
+        "technique": "Lean 4 proof of totality / consistency / re-encoding of the validation glue + mutation-based differential exploration of all decode entry points",
     },
 }
 
@@ -102,13 +159,25 @@ KNOWN_FINDINGS = [
     {
         "property": "C07",
         "status": "open",
-        "id": "F12",
+        "id": "FB1",
         "what": "SequencerBlock::try_from_raw accepts a block whose per-rollup Merkle proof does not verify (RollupTransactions.proof is decoded but "
                 "never checked against rollup_transactions_root); split_for_celestia / to_filtered_block then hand out the bad proof",
         "match": {
             "monitor": "accepted_proofs_verify",
-            "line_regex": r"^block full .* \| accepted, but proof of rollup [0-9a-f]+ does not verify",
+            "line_regex": r"^block (full|wire block) .* \| accepted, but proof of rollup [0-9a-f]+ does not verify",
         },
-        "replay": "corpus/block.ops (session F12)",
+        "replay": "corpus/block.ops (session FB1)",
+    },
+    {
+        "property": "C17",
+        "status": "open",
+        "id": "FB1",
+        "what": "SequencerBlock::try_from_raw accepts a block whose per-rollup Merkle proof does not verify (accepted value does not satisfy "
+                "'proofs verify against the header')",
+        "match": {
+            "monitor": "accepted_proofs_verify",
+            "line_regex": r"^block (full|wire block) .* \| accepted, but proof of rollup [0-9a-f]+ does not verify",
+        },
+        "replay": "corpus/block.ops (session FB1)",
     },
 ]
